@@ -14,6 +14,12 @@ open Proto EvSel EvSelCrit
                H:N | H:<sigma>   the same call on the *current manager object* (state kept between
                                  requests; `hnew` = construct a fresh manager); uses the object model
                                  `initTrialObj` with the reset flag extracted from the source
+               E            select_events on the *current selection-method object*: the sources given in
+                            the request are ignored, the cached source array of the object is used
+
+      enew <id> <srcRa> <srcDec>      construct the method object(s) with manager object <id>
+      echange <id> <srcRa> <srcDec>   change_shg_mgr(manager <id>), whose source list is currently the given one
+                                      (early-return flag extracted from the source)
         inc    N | <src list>/<evt list>          (incoming src_evt_idxs; only used in mode S)
         method dec:<delta> | ra:<delta> | box:<delta> | all | psifunc | angerr:<a>:<b>:<floor>
                several methods = left-nested `&` chain; none (mode T only) = no event selection
@@ -89,19 +95,27 @@ def fNat (n : Nat) : String := toString n
 def fmtPairs (P : Pairs) : String :=
   s!"src:{fListD fNat (P.map Prod.fst)} evt:{fListD fNat (P.map Prod.snd)}"
 
-def answerRun (st : TdmObj Ev) (line : String) : TdmObj Ev × String :=
+structure St where
+  tdm : TdmObj Ev
+  esm : EsmObj Src
+
+def mkSrcs (sra sdec : String) : List Src :=
+  ((pList pF sra).zip (pList pF sdec)).map fun p => { ra := p.1, dec := p.2 }
+
+def answerRun (st : St) (line : String) : St × String :=
   match tokens line with
-  | ["hnew"] => (TdmObj.fresh, "ok")
+  | ["hnew"] => ({ st with tdm := TdmObj.fresh }, "ok")
+  | ["enew", id, sra, sdec] => ({ st with esm := { shgId := pN id, srcArr := mkSrcs sra sdec } }, "ok")
+  | ["echange", id, sra, sdec] =>
+    ({ st with esm := st.esm.changeShgMgr Gen.C05.esmEarlyReturn (pN id) (mkSrcs sra sdec) }, "ok")
   | "run" :: sra :: sdec :: era :: edec :: eae :: epsi :: efv :: mode :: inc :: meths =>
-    let sra := pList pF sra
-    let sdec := pList pF sdec
-    let srcs : Array Src := ((sra.zip sdec).map fun p => { ra := p.1, dec := p.2 }).toArray
+    let srcs : Array Src := (if mode == "E" then st.esm.srcArr else mkSrcs sra sdec).toArray
     let K := srcs.size
     let evs := mkEvs (pList pF era) (pList pF edec) (pList pF eae) (pList pF epsi) (pList pF efv)
     match parseMethods srcs K meths with
     | none => (st, "bad-method")
     | some ms =>
-      if mode == "S" then
+      if mode == "S" || mode == "E" then
         match chainAll ms with
         | none => (st, "bad-method")
         | some m =>
@@ -114,10 +128,10 @@ def answerRun (st : TdmObj Ev) (line : String) : TdmObj Ev × String :=
         let argsort : Option (List Ev → List Nat) :=
           if perm == "N" then none else some (fun _ => pList pN perm)
         if mode.startsWith "H:" then
-          match initTrialObj Gen.C05.resetsTable st K evs (chainAll ms) argsort with
+          match initTrialObj Gen.C05.resetsTable st.tdm K evs (chainAll ms) argsort with
           | none => (st, "ERR")
           | some s =>
-            (s, s!"ev:{fListD fNat (s.events.map Ev.tag)} {fmtPairs (s.srcEvtIdxs.getD [])}")
+            ({ st with tdm := s }, s!"ev:{fListD fNat (s.events.map Ev.tag)} {fmtPairs (s.srcEvtIdxs.getD [])}")
         else
           match initTrial K evs (chainAll ms) argsort with
           | none => (st, "ERR")
@@ -127,4 +141,5 @@ def answerRun (st : TdmObj Ev) (line : String) : TdmObj Ev × String :=
     (st, fListD (fun row => "r" ++ String.join (row.map fB)) rows)
   | _ => (st, "bad-op")
 
-def main : IO Unit := do loopS (← IO.getStdin) (TdmObj.fresh : TdmObj Ev) answerRun
+def main : IO Unit := do
+  loopS (← IO.getStdin) ({ tdm := TdmObj.fresh, esm := { shgId := 0, srcArr := [] } } : St) answerRun
